@@ -73,7 +73,6 @@ EXCLUDED = {
                                       '- logging code, outside the property; debug=True is exercised on the dimension-wise path',
     'data outside the unit cube': 'initialize() rescales such data (MinMaxScaler); the property speaks about data in the unit cube',
     'grids with boundary points / modified basis': 'evaluate_levelvec asserts not grid.boundary; hat_function_non_symmetric switches formulas',
-    'reuse_old_values=True': 'property C17',
     'unsorted or repeated stripe coordinates': 'never produced by the grid classes; calculate_R_value_analytically divides by the distances',
     'negative lambda': 'the system matrix need not be positive definite then; not covered by the property',
 }
@@ -113,6 +112,8 @@ def _options(rng, c, uniform):
         c['debug'] = True
     if rng.random() < 0.1:
         c['repeat'] = True
+    if not c.get('numeric') and rng.random() < 0.08:
+        c['reuse'] = True          # reuse_old_values=True: the clauses of C16 hold for this configuration as well
     return c
 
 
@@ -284,7 +285,68 @@ def _same_size_stripe(rng, sl):
     return out
 
 
+def _level_of(i, L):
+    if i == 0 or i == 2 ** L:
+        return 0
+    l = L
+    while i % 2 == 0:
+        i //= 2
+        l -= 1
+    return l
+
+
+def _next_tree(rng, s, L):
+    """the stripe of the next refinement step: some new points of the level-L lattice (new hats, and the neighbours' supports
+    change), sometimes one point replaced by another (replaced hats); most hats keep centre and support"""
+    n = 2 ** L
+    idx = sorted(int(round(x * n)) for x in s)
+    free = [i for i in range(1, n) if i not in idx]
+    r = rng.random()
+    if free and r < 0.85:
+        for i in rng.sample(free, min(len(free), rng.choice([1, 1, 2, 3]))):
+            idx.append(i)
+    if r >= 0.7 and len(idx) > 4:
+        inner = [i for i in idx if 0 < i < n]
+        idx.remove(rng.choice(inner))
+    idx = sorted(set(idx))
+    return [i / n for i in idx], [_level_of(i, L) for i in idx]
+
+
+def gen_reuse_history(rng):
+    """reuse_old_values=True on ONE dimension-wise object: >= 2 evaluations of component grids with >= 200 points, post_processing in
+    between, so that the right-hand side of the later evaluations MIXES entries copied from the previous step with newly computed
+    ones.  Every step is judged by the sample-mean specification (not by a reuse on/off comparison: that is C17)."""
+    dim = rng.choice([1, 2, 2])
+    L = 9 if dim == 1 else 6
+    while True:
+        sl = [_de.gen_stripe(rng, L, 200, 230)] if dim == 1 else [_de.gen_stripe(rng, L, 14, 18) for _ in range(dim)]
+        if 200 <= _N([s for s, _ in sl]) <= 300:
+            break
+    M = rng.choice([5, 12, 30, 70])
+    data = _de.gen_data(rng, dim, M, [s for s, _ in sl], k=7)
+    classes = _labels(rng, M)
+    lam = rng.choice([0.0, 0.125, 0.0625])
+    steps = []
+    for k in range(rng.choice([2, 3, 3])):
+        if k > 0:
+            sl = [(_next_tree(rng, s, L) if rng.random() < 0.8 else (s, lv)) for s, lv in sl]
+            if _N([s for s, _ in sl]) < 200:
+                break
+        full = rng.random() < 0.4          # complete pipeline (mass lumping: no O(N^2) matrix loop) or right-hand side + interpolation only
+        st = mk_nonuniform(rng, sl, data=data, lam=lam, ml=True, classes=classes, options=False, npts=3)
+        if not full:
+            st['kind'] = 'nonuniform-large'
+            st['surplus_seed'] = rng.randrange(1 << 30)
+            st['lam'] = 0.0
+            st['ml'] = False
+        st.update(obj=0, reuse=True, post=True)
+        steps.append(st)
+    return dict(family='reuse-rhs', steps=steps)
+
+
 def gen_history(rng, family=None):
+    if family == 'reuse-rhs':
+        return gen_reuse_history(rng)
     """short histories in ONE process; steps with equal 'obj' share one operation object"""
     family = family or rng.choice(['lam-sweep', 'lam-sweep', 'one-op-levels', 'one-op-levels', 'one-op-trees', 'one-op-trees',
                                    'two-ops', 'combi-rerun', 'mixed-paths', 'threshold-crossing'])
@@ -561,6 +623,8 @@ def _run_step(state, case):
         op.surpluses[key] = alphas
         out['interp'] = _de.tolist(np.asarray(op.interpolate_points_component_grid(
             ComponentGridInfo(key, 1), None, [tuple(p) for p in P])).reshape(-1))
+    if case.get('post'):
+        op.post_processing()        # end of a refinement step: with reuse_old_values the right-hand sides become the "old" ones
     return out
 
 
@@ -802,10 +866,12 @@ def _count_axes(chk, c):
     if c.get('ml'): chk.count('masslumping')
     cl = c.get('classes')
     chk.count('labels=' + ('none' if cl is None else ('one-class' if len(set(cl)) == 1 else 'two-classes')))
-    for flag in ('numeric', 'debug', 'pre_scaled', 'explicit_grid', 'repeat', 'xl'):
+    for flag in ('numeric', 'debug', 'pre_scaled', 'explicit_grid', 'repeat', 'xl', 'reuse'):
         if c.get(flag): chk.count('option:' + flag)
     if c.get('data_form'): chk.count('option:data_form=' + c['data_form'])
     if c.get('history'):
+        if c.get('reuse') and c.get('post') and len(c['history']) > 1 and _N(_stripes_of(c)) >= _de.THRESHOLD:
+            chk.count('reuse_old_values: rhs of a >=200-point grid after a previous step (copied + new entries)')
         chk.count('history-step=%d' % (len(c['history']) - 1))
         prev = c['history'][:-1]
         dw = lambda kk: kk.startswith('nonuniform')
@@ -1245,8 +1311,8 @@ def run(chk):
     cases += [gen_large(rng, False, lab=k % 2 == 1) for k in range(chk.n(7, 20))]
     cases += [gen_combi(rng) for _ in range(chk.n(8, 40))]
     cases += [gen_adaptive(rng) for _ in range(chk.n(8, 30))]
-    fams = ['lam-sweep', 'one-op-levels', 'one-op-trees', 'two-ops', 'combi-rerun', 'mixed-paths', 'threshold-crossing', 'lam-sweep',
-            'one-op-trees', 'one-op-levels']
+    fams = ['lam-sweep', 'one-op-levels', 'one-op-trees', 'two-ops', 'combi-rerun', 'mixed-paths', 'threshold-crossing', 'reuse-rhs',
+            'lam-sweep', 'one-op-trees', 'one-op-levels', 'reuse-rhs']
     hists = list(CORPUS_HISTORIES) + [gen_history(rng, fams[k % len(fams)]) for k in range(chk.n(40, 150))]
     t0 = time.time()
     impl = _unwrap(run_impl(iso_case, cases, limit=400))
